@@ -21,7 +21,7 @@ from mro import (call, pipeline, program, ref, split, stage, const, echo)
 
 
 def key_programs():
-    P = [p for p in shapes.catalogue() if p["name"].startswith("keys_") or p["name"] in ("map_keys", "map_dyn2")]
+    P = [p for p in shapes.catalogue() if p["name"].startswith(("keys_", "nest_")) or p["name"] in ("map_keys", "map_dyn2")]
     sets = {"keys_mixed": ["a", "a.b", "a/b", "%2E", "..", "é", " "],
             "keys_forklike": ["fork0", "fork_a", "u0123456789", "chnk1", "1", "01"],
             "keys_prefix": ["x", "x_x", "x%5Fx", "x.x"],
@@ -61,12 +61,13 @@ def run(tier, replay=None):
     for cfg in cfgs:
         wd = vlib.scratch("fn")
         r = vlib.run_tlc("ForkNames", cfg, workdir=wd, workers=1, timeout=3000)
-        p = vlib.run_harness(["forknames-replay", os.path.join(wd, "forknames_keys.ndjson")], timeout=1500)
+        p = vlib.run_harness(["forknames-replay", os.path.join(wd, "forknames_keys.ndjson"),
+                              os.path.join(wd, "forknames_nested.ndjson")], timeout=1500)
         rep = json.loads(p.stdout)
         nkeys += rep["keys"]
         nnames += rep["journal_names"]
         samples = samples or rep["samples"]
-        tlc_info.append("%s: Injective, RoundTrip, NotNumeric hold for %d keys (%.1fs)" % (cfg, rep["keys"], r.wall))
+        tlc_info.append("%s: Injective, RoundTrip, NotNumeric, NestedInjective hold for %d keys (%.1fs)" % (cfg, rep["keys"], r.wall))
         for d in rep["drift"][:3]:
             print("NOTE model-drift property=C11 %s: %s %s" % (d["kind"], d["key"], d["detail"]))
         for v in rep["violations"]:
